@@ -87,6 +87,7 @@ func main() {
 		scale = 10
 	}
 	genHistories(out, rnd, scale)
+	genDisagree(out, rnd, scale)
 	genReads(out, rnd, scale)
 	genRanges(out, rnd, scale)
 	genBig(out, rnd, scale)
